@@ -1,7 +1,10 @@
 pub mod history;
 pub mod c01;
 pub mod c02;
+pub mod c03;
 pub mod c04;
+pub mod c09;
+pub mod c10;
 pub mod c15;
 
 use crate::runner::{EvidenceMeta, Report, RunCtx};
@@ -31,7 +34,10 @@ pub fn run(ctx: &RunCtx) -> Option<PropResult> {
     match ctx.prop.as_str() {
         "C01" => Some(c01::run(ctx)),
         "C02" => Some(c02::run(ctx)),
+        "C03" => Some(c03::run(ctx)),
         "C04" => Some(c04::run(ctx)),
+        "C09" => Some(c09::run(ctx)),
+        "C10" => Some(c10::run(ctx)),
         "C15" => Some(c15::run(ctx)),
         _ => None,
     }
@@ -42,7 +48,9 @@ pub fn history_profile(prop: &str, phase: &str) -> Option<history::Profile> {
     let mut p = match prop {
         "C01" => c01::profile(),
         "C02" => c02::profile(),
+        "C03" => c03::profile(),
         "C04" => c04::profile(),
+        "C10" => c10::profile(),
         "C15" => c15::profile(),
         _ => return None,
     };
@@ -98,6 +106,10 @@ pub fn replay(ctx: &RunCtx, path: &std::path::Path) -> i32 {
     }
 }
 
-fn replay_other(_ctx: &RunCtx, _phase: &str, _case: &serde_json::Value, _dir: &std::path::Path) -> Option<Result<crate::runner::CaseOut, crate::interp::Failure>> {
-    None
+fn replay_other(ctx: &RunCtx, phase: &str, case: &serde_json::Value, dir: &std::path::Path) -> Option<Result<crate::runner::CaseOut, crate::interp::Failure>> {
+    match ctx.prop.as_str() {
+        "C09" => c09::replay_other(phase, case, dir),
+        "C10" => c10::replay_other(phase, case, dir),
+        _ => None,
+    }
 }
